@@ -16,7 +16,7 @@ RULE = (
     "non-trivial = program with a cached intermediate between a drawn parent and a drawn child, simulated "
     "with auto-update off; distinct by (program, skip set, setting) hash"
 )
-REQUIRED = ["child_at_f_of_new_parent", "root_draw_standardised", "shape_preserved", "skipped_untouched",
+REQUIRED = ["independent_noise", "child_at_f_of_new_parent", "root_draw_standardised", "shape_preserved", "skipped_untouched",
             "seed_determines_result", "auto_update_independent", "coherent_after_update"]
 ANCHORS = ["model/model.py:Model.simulate", "model/model.py:Model._build_simulation_graph", "model/nodes.py:Dist.init_dist"]
 ASSUMPTIONS = ["distributions sit on strong variables (weak distributed variables make simulate raise by documentation)",
@@ -180,6 +180,7 @@ def run_case(case):
         model.update()
         model.auto_update = auto
         n_rounds = 2
+        shared: dict = {}
         prev = dict(base)
         for rd in range(n_rounds):
             seed_int = int(rng.integers(0, 2 ** 31 - 1))
@@ -219,6 +220,31 @@ def run_case(case):
                                       f"distribution at the newly drawn ancestors is centred at {np.ravel(loc)[:3].tolist()} "
                                       f"(scale {u['scale']}); centred at the OLD ancestor values it would be "
                                       f"{np.ravel(loc_stale)[:3].tolist()}; auto_update={auto}", w)
+            # independent noise: no two drawn variables may share their standardised noise
+            noise = {}
+            for ui in drawn:
+                u = units[ui]
+                if ui in skip_units:
+                    continue
+                if u["kind"] == "root":
+                    noise[ui] = (new[ui].astype(np.float64) - u["m0"]) / u["s0"]
+                elif u["scale"] > 1:
+                    loc = u["a"] + u["b"] * spec_eval(units, new, u["parent"])
+                    noise[ui] = (new[ui].astype(np.float64) - loc) / u["scale"]
+            ks = sorted(noise)
+            for i in range(len(ks)):
+                for j in range(i + 1, len(ks)):
+                    a_, b_ = np.ravel(noise[ks[i]]), np.ravel(noise[ks[j]])
+                    if a_.size != b_.size:
+                        continue
+                    res.mon("independent_noise")
+                    if np.allclose(a_, b_, atol=1e-4):
+                        shared[(ks[i], ks[j])] = shared.get((ks[i], ks[j]), 0) + 1
+                        # a chance coincidence has probability ~1e-4 per element: demand >= 3
+                        # coinciding elements, or a coincidence in every simulation round
+                        if a_.size >= 3 or shared[(ks[i], ks[j])] == n_rounds:
+                            res.violation("shared-noise", f"variables {units[ks[i]]['name']} and {units[ks[j]]['name']} were "
+                                          f"drawn with identical standardised noise {a_[:3].tolist()} (keys not split)", w)
             # untouched: everything that is not a drawn variable's value must be consistent after update
             model.update()
             res.mon("coherent_after_update")
